@@ -293,5 +293,61 @@ class MutableDecodeBlocks(Spec):
         return [("canary", z3.BoolVal(self._result[0] is not self._ps[0]))]
 
 
+def codec_sequence_failures():
+    """native run-time contract with the real zfec: within ONE process, segments of different (k, N) -- in particular the same k
+    with a larger N afterwards -- each decode back from any k of their N blocks, the highest-numbered ones included (an encoder or
+    decoder object must belong to its own parameters, not to whatever was used before)"""
+    import itertools
+    from twisted.internet import defer
+    from allmydata import codec
+    from allmydata.util import cputhreadpool
+    old = cputhreadpool._DISABLED
+    cputhreadpool._DISABLED = True
+    bad, n = [], 0
+
+    def result_of(d):
+        out = []
+        defer.ensureDeferred(d).addBoth(out.append)
+        return out[0] if out else None
+    try:
+        for k in (1, 2, 3):
+            history = []
+            for N in (k, k + 2, 10, k + 1, 16, k):        # N goes up and down with the same k
+                data_size = 12 * k
+                data = bytes((7 * i + N) % 251 for i in range(data_size))
+                enc = codec.CRSEncoder()
+                enc.set_params(data_size, k, N)
+                pieces = [data[i * 12:(i + 1) * 12] for i in range(k)]
+                blocks, ids = result_of(enc.encode(pieces))
+                history.append((k, N))
+                subsets = [tuple(range(N - k, N)), tuple(range(k))] + [c for c in itertools.combinations(range(N), k)][:40:7]
+                for sub in subsets:
+                    n += 1
+                    dec = codec.CRSDecoder()
+                    dec.set_params(data_size, k, N)
+                    got = result_of(dec.decode([blocks[i] for i in sub], list(sub)))
+                    if not isinstance(got, list) or b"".join(got) != data:
+                        bad.append({"encodings_so_far": list(history), "k": k, "N": N, "blocks_used": list(sub), "outcome": "wrong bytes" if isinstance(got, list) else repr(got)[:120]})
+    finally:
+        cputhreadpool._DISABLED = old
+    return bad, n
+
+
+def extra_checks(rep, tier):
+    bad, n = codec_sequence_failures()
+    name = "CodecSequence:every-encoding-decodes-from-any-k-blocks-whatever-parameters-were-used-before-in-the-process"
+    rep.obligations += 1
+    rep.bounded_obligations += 1
+    rep.paths += n
+    rep.sym_paths += n
+    rep.bounds.append("codec sequences: k in {1,2,3}, N in (k, k+2, 10, k+1, 16, k) in that order in one process, decoding from the highest, the lowest and 6 other k-subsets (%d decodes, real zfec)" % n)
+    if not bad:
+        rep.discharged += 1
+        rep.discharged_names.add(name)
+        return
+    rep.violations.append({"property": "C36", "contract": "CodecSequence", "obligation": name, "status": "runtime", "inputs": bad[0],
+                           "native_outcome": "%d of %d decodes fail; first: %r" % (len(bad), n, bad[0]), "confirmed_on_real_code": True})
+
+
 def contracts(tier):
     return [CodecParams(), CRSEncode(), CRSDecode(), ImmutableDecodeBlocks(), MutableDecodeBlocks()]
